@@ -61,6 +61,10 @@ func genCase(t *rapid.T) Case {
 			op.K = rapid.SampledFrom([]string{"restart", "damaged"}).Draw(t, "restartKind")
 		}
 		c.Ops = append(c.Ops, op)
+		if (op.K == "restart" || op.K == "damaged") && rapid.Bool().Draw(t, "gossipFirst") {
+			// the first thing the broker that just came back does is merge what the other one broadcast meanwhile (or long ago)
+			c.Ops = append(c.Ops, Op{K: "gossip", B: 1 - op.B})
+		}
 	}
 	return c
 }
